@@ -353,6 +353,14 @@ class Specialiser:
             if ftxt.endswith(".get_field_string"):
                 obj = self._value(f.node, env, loop) if isinstance(f, jn.Getattr) else "field"
                 return f'{obj}: "xpkg__.HFieldType" = betterproto.message_field(1)'
+        if isinstance(e, jn.Filter) and e.name == "join" and len(e.args) <= 1 and not e.kwargs and (not e.args or isinstance(e.args[0], jn.Const)):
+            # {{ collection|sort|join(', ') }}: the elements the corresponding {% for %} would enumerate, joined
+            src = e.node
+            while isinstance(src, jn.Filter) and src.name in ("sort", "list", "unique"):
+                src = src.node
+            if not isinstance(src, jn.Filter):
+                sep = str(e.args[0].value) if e.args else ""
+                return sep.join(self.elements(jtext(src), env))
         if isinstance(e, jn.Getattr):
             obj = self._value(e.node, env, loop) if not isinstance(e.node, jn.Name) else env.get(e.node.name, e.node.name)
             return self.attr_value(obj, e.attr, jtext(e))
